@@ -124,7 +124,7 @@ def handle (line : String) : String :=
           | .ok c2 => some s!"ok {fmtTensor t} table={fmtRows rs} re={fmtTensor (tensorise store dim c2)}").getD "bad-request"
   | "addobs" :: args =>
     (do
-      let calls ← (kv args "calls") >>= (fun s => (splitNE s "/").mapM (parseList parseVisit · ";"))
+      let calls ← (kv args "calls") >>= (fun s => (splitNE s "@").mapM (parseList parseVisit · ";"))
       match addCalls [] calls with
       | .error e => some (fmtErr e)
       | .ok vs => some s!"ok visits={fmtList (fun (v : Visit) => s!"{v.age}:{fmtList fmtOpt v.vals}") vs ";"}").getD "bad-request"
@@ -132,7 +132,7 @@ def handle (line : String) : String :=
     (do
       let nb ← (kv args "nb") >>= parseNb
       let rows ← (kv args "rows") >>= (parseList parseEvRow · ";")
-      match ingestEvents nb rows with
+      match ingestEventTable nb rows with
       | .error e => some (fmtErr e)
       | .ok (evs, n) => some s!"ok {fmtEvents n evs}").getD "bad-request"
   | "joint" :: args =>
